@@ -102,7 +102,7 @@ def judge_cell(j, e, got):
     doc = out["doc"]
     cid = (op, L["c"], R["c"])
     multi = "multi" if (L["n"] > 1 or R["n"] > 1) else "single"
-    site = "%s%s" % (L["c"], op)            # the dispatch site: left class and operator
+    site = "%s%s" % (L["c"], "__or__" if op == "|" else op)            # the dispatch site: left class and operator
     feat = "%s;len(%d,%d)" % (R["c"], L["n"], R["n"])
     detail = {"op": op, "l": L, "r": R, "documented": doc, "got": got}
     if doc["k"] == "unspec":
